@@ -91,6 +91,22 @@ def call(fn, *a):
         return ['exc', e]
 
 
+def call_wd(fn, *a, pre=None):
+    """call under a watchdog: an accessor that does not return within 25 s is reported, not waited for"""
+    import threading
+    box = []
+    def body():
+        if pre is not None:
+            pre()    # the kill, delivered by the thread that then calls the accessor at once
+        box.append(call(fn, *a) + [fn.__self__.done()])
+    t = threading.Thread(target=body, daemon=True)
+    t.start()
+    t.join(25)
+    if not box:
+        return ['exc', TimeoutError('WATCHDOG: accessor did not return within 25 s'), False]
+    return box[0]
+
+
 def run_process_case(c):
     from mpservice.multiprocessing import MP_SPAWN_CTX, Process, as_completed, wait
     ready = MP_SPAWN_CTX.Event()
@@ -101,20 +117,25 @@ def run_process_case(c):
     elif c['phase'] != 'none':
         if not ready.wait(30):
             return {'problem': 'child never reached the kill point'}
-        time.sleep(0.05)
-        os.kill(p.pid, c['sig'])
+        time.sleep(c.get('gap', 0.05))
+        if c.get('jt', 20) is not None or c['first'] not in ('join', 'result', 'exception'):
+            os.kill(p.pid, c['sig'])
     obs = {}
     t0 = time.time()
     first = c['first']
     order = [first] + [a for a in ('join', 'result', 'exception', 'wait', 'as_completed') if a != first]
     res = {}
+    # 'jt': the timeout given to join/result/exception; None = wait without limit (under a watchdog), which is how
+    # terminate()/kill followed by join() is normally written
+    jt = c.get('jt', 20)
     for a in order:
+        pre = (lambda: os.kill(p.pid, c['sig'])) if (jt is None and a == first and c['phase'] == 'during') else None
         if a == 'join':
-            res[a] = call(p.join, 20)
+            res[a] = call_wd(p.join, jt, pre=pre)
         elif a == 'result':
-            res[a] = call(p.result, 20)
+            res[a] = call_wd(p.result, jt, pre=pre)
         elif a == 'exception':
-            res[a] = call(p.exception, 20)
+            res[a] = call_wd(p.exception, jt, pre=pre)
         elif a == 'wait':
             d, nd = wait([p], timeout=20)
             res[a] = ['ret', len(d)]
@@ -123,6 +144,10 @@ def run_process_case(c):
                 res[a] = ['ret', len(list(as_completed([p], timeout=20)))]
             except BaseException as e:  # noqa
                 res[a] = ['exc', e]
+        if a == first:
+            # done() as seen by the calling thread at the moment the accessor came back
+            obs['done_after_first'] = res[a][2] if len(res[a]) > 2 else p.done()
+        res[a] = res[a][:2]
     obs['elapsed'] = time.time() - t0
     obs['done'] = p.done()
     obs['exitcode'] = p.exitcode
@@ -145,6 +170,8 @@ def run_process_case(c):
             problems.append(f'result() raised {r[1]!r} but join() gave {j!r:.80}')
         if not (e[0] == 'ret' and type(e[1]) is type(r[1])) and not (e[0] == 'exc' and type(e[1]) is type(r[1])):
             problems.append(f'result() raised {r[1]!r} but exception() gave {e!r:.80}')
+    if jt is None and first in ('join', 'result', 'exception') and not obs['done_after_first']:
+        problems.append(f'{first}() without a timeout came back ({res[first]!r:.60}) before the process was done')
     if res['wait'] != ['ret', 1]:
         problems.append(f'wait() did not report the process as done within 20 s: {res["wait"]!r:.80}')
     if res['as_completed'] != ['ret', 1]:
@@ -194,6 +221,13 @@ def gen_cases(rng, n):
     for c in cases:
         c['thread'] = False
         c['first'] = rng.choice(['join', 'result', 'exception', 'wait', 'as_completed'])
+    # kill followed at once by an accessor without a timeout (terminate(); join()): the accessor must not return before
+    # the process is done (defect X: the collector thread reaped the child under join()'s feet)
+    for sg in (15, 9):
+        for i in range(24 if n >= 60 else 10):
+            k, a = rng.choice(endings)
+            cases.append({'kind': k, 'arg': a, 'phase': 'during', 'sig': sg, 'thread': False, 'gap': 0, 'jt': None,
+                          'first': ['join', 'result', 'exception', 'join'][i % 4]})
     for k, a in endings:
         cases.append({'kind': k, 'arg': a, 'phase': 'none', 'sig': 15, 'thread': True, 'first': 'join'})
     rng.shuffle(cases)
@@ -216,13 +250,29 @@ def impl_main(argv):
     rng = random.Random(seed)
     cases = [c['cfg'] for c in corpus] + gen_cases(rng, n)
     res = []
+    import gc
+    gc.disable()      # collections only at safe points (CPython 3.12.1 thread-start / finalizer deadlock; see harness/props/c14.py)
+    # the no-timeout cases race the caller against mpservice's own helper threads; the window only opens when threads are
+    # preempted, so they run last, under CPU load (2 busy processes per core, each ending by itself after 150 s)
+    cases = [c for c in cases if c.get('jt', 20) is not None] + [c for c in cases if c.get('jt', 20) is None]
+    burners = []
     for c in cases:
+        gc.collect()
+        if c.get('jt', 20) is None and not burners:
+            import subprocess
+            code = 'import time\nt = time.time()\nwhile time.time() - t < 150: pass'
+            burners = [subprocess.Popen([sys.executable, '-S', '-c', code]) for _ in range(2 * (os.cpu_count() or 4))]
+            time.sleep(0.5)
         try:
             obs = run_thread_case(c) if c.get('thread') else run_process_case(c)
         except BaseException as e:  # noqa
             obs = {'crash': repr(e)[:300], 'problems': [], 'future': [0, 0, 0]}
         res.append({'cfg': c, 'obs': obs, 'oracle': oracle(c, obs), 'strategy': 'thread' if c.get('thread') else c['phase'],
                     'verdict': 'ok'})
+    for b in burners:
+        b.kill()
+    for b in burners:
+        b.wait()
     json.dump(res, open(outp, 'w'), default=str)
     sys.stdout.flush()
     os._exit(0)
